@@ -83,7 +83,7 @@ def generate(rng, opts):
     corrupt = None
     if r.random() < opts.get("pool_corrupt_rate", 0.2):
         corrupt = {"root": r.randrange(nroots), "buf": r.randrange(64), "item": r.randrange(64),
-                   "value": r.choice([-1, -2, -100, 1, 7, 100, 127, 2**31 - 1, -2**31, 2**62, 255]),
+                   "value": r.choice([-1, -2, -100, 1, 2, 3, 4, 7, 100, 127, 2**31 - 1, -2**31, 2**62, 255]),
                    "after": r.randrange(len(events) + 1)}
     return {"roots": roots, "events": events, "corrupt": corrupt}
 
